@@ -398,6 +398,53 @@ func (t *textGen) values(n int) {
 	}
 }
 
+// boundedReader: the graph reader is handed a literal builder; the lines it loads are those `triple.Parse` accepts
+// with THAT builder — a text or blob literal longer than the bound makes its line malformed for a bounded builder.
+// B lines: a graph text of well-formed lines (no blanks, no comments) read with a bounded builder; the reader's count
+// and verdict against the index of the first line the same builder's `triple.Parse` refuses.
+func (t *textGen) boundedReader(n int) {
+	ctx := context.Background()
+	for i := 0; i < n; i++ {
+		bound := []int{1, 4, 8, 16}[t.r.intn(4)]
+		b := literal.NewBoundedBuilder(bound)
+		var lines []string
+		for k := 1 + t.r.intn(6); k > 0; k-- {
+			txt := strings.Repeat("x", t.r.intn(2*bound+2))
+			var o *triple.Object
+			switch t.r.intn(3) {
+			case 0:
+				o = triple.NewLiteralObject(mustLit(literal.Text, txt))
+			case 1:
+				o = triple.NewLiteralObject(mustLit(literal.Blob, []byte(txt)))
+			default:
+				o = triple.NewNodeObject(mustNode("/u", "o"+txt))
+			}
+			tr, err := triple.New(mustNode("/u", fmt.Sprintf("s%d", k)), mustImm("p"), o)
+			if err != nil {
+				continue
+			}
+			lines = append(lines, tr.String())
+		}
+		want, wantErr := len(lines), false
+		for j, l := range lines {
+			if _, err := triple.Parse(l, b); err != nil {
+				want, wantErr = j, true
+				break
+			}
+		}
+		text := strings.Join(lines, "\n") + "\n"
+		st := memory.NewStore()
+		g, _ := st.NewGraph(ctx, "?b")
+		rn, rerr := bwio.ReadIntoGraph(ctx, g, strings.NewReader(text), b)
+		ans := "same"
+		if rn != want || (rerr != nil) != wantErr {
+			ans = fmt.Sprintf("differs: the reader loaded %d lines (error: %v), triple.Parse with the same builder accepts %d (refuses one: %v)", rn, rerr != nil, want, wantErr)
+		}
+		t.hist["bounded-reader"]++
+		t.g.emit(fmt.Sprintf("B bound=%d text=%s", bound, hx(text)), ans)
+	}
+}
+
 func (t *textGen) newlineWitness() {
 	ctx := context.Background()
 	st := memory.NewStore()
@@ -654,6 +701,7 @@ func cmdText(args []string) error {
 	t := &textGen{r: r, g: g, hist: map[string]int{}}
 	t.values(*n)
 	t.graphs(*n / 3)
+	t.boundedReader(*n / 6)
 	t.arbitrary(*maxLen, *n)
 	wo.Flush()
 	wi.Flush()
@@ -673,6 +721,27 @@ func cmdTextOne(args []string) error {
 		return fmt.Errorf("usage: textone <kind> <hextext>")
 	}
 	t, _ := unhx(args[1])
+	if strings.HasPrefix(args[0], "bounded:") {
+		// the law of the B lines on one text
+		bound, _ := strconv.Atoi(strings.TrimPrefix(args[0], "bounded:"))
+		b := literal.NewBoundedBuilder(bound)
+		lines := strings.Split(strings.TrimSuffix(t, "\n"), "\n")
+		want, wantErr := len(lines), false
+		for j, l := range lines {
+			if _, err := triple.Parse(l, b); err != nil {
+				want, wantErr = j, true
+				break
+			}
+		}
+		g, _ := memory.NewStore().NewGraph(context.Background(), "?b")
+		rn, rerr := bwio.ReadIntoGraph(context.Background(), g, strings.NewReader(t), b)
+		if rn != want || (rerr != nil) != wantErr {
+			fmt.Printf("differs: the reader loaded %d lines (error: %v), triple.Parse with the same builder accepts %d (refuses one: %v)\n", rn, rerr != nil, want, wantErr)
+		} else {
+			fmt.Println("same")
+		}
+		return nil
+	}
 	fmt.Println(parseWith(args[0], t))
 	return nil
 }
